@@ -4,13 +4,13 @@
    are required here (never proof files), so the executable model survives a broken proof. *)
 From Coq Require Extraction.
 From Coq Require Import ExtrOcamlBasic.
-From BS Require Import Http.UuidText Http.Route Sync.Types Sync.Model Sync.Observe Abs.Values Abs.ValuesPremise Abs.Entities Abs.Parents Abs.ParentsPremise Abs.Promotion Abs.PromotionRun Abs.Assets Abs.Downloads Codec.Schema Codec.Lz4 Codec.CodecTypes Codec.MeshCodec Codec.ImageCodec Codec.ProtoCodec.
+From BS Require Import Http.UuidText Http.Route Sync.Types Sync.Model Sync.Observe Sync.UniquePremise Abs.Values Abs.ValuesPremise Abs.Entities Abs.Parents Abs.ParentsPremise Abs.Promotion Abs.PromotionRun Abs.Assets Abs.Downloads Codec.Schema Codec.Lz4 Codec.CodecTypes Codec.MeshCodec Codec.ImageCodec Codec.ProtoCodec.
 Extraction "model.ml" PromotionRun.promotion_explore Route.respond1 Route.serve Route.empty_caches Route.lookup Route.cache_of
   Route.path_of Route.url_of Route.run Route.request_starts_download UuidText.parse UuidText.to_string
   Model.gstep Model.grun Model.frame Model.app_step Model.build_full_sync Model.independent
   Observe.peer_of Observe.init_global Observe.entities Observe.comps_of Observe.parent_of Observe.marked
   Observe.lookup_ent Observe.u2e_list Observe.e2u_list Observe.ptok_list Observe.inbox_of Observe.inbox_all Observe.pending_cmds
-  Observe.find_by_uuid Observe.count_by_uuid Entities.step Entities.init Entities.get_ents Entities.get_link Entities.set_link Entities.quiescentb Values.vstep Values.vinit Values.pcur Values.link Values.vquiescentb Values.ptoken Values.poutq Values.ds_from Values.jr_from Values.vconn ValuesPremise.causally_ordered Parents.writers_drain_separated Parents.pconn ParentsPremise.causally_ordered Parents.pstep Parents.pinit Parents.ppar Parents.plink Parents.pquiescentb Parents.ppexists Assets.astep Assets.ainit Assets.pstore Assets.pserved Assets.ppending Assets.link Assets.aquiescentb Assets.pexists Assets.mstep Assets.minit Assets.mpstore Assets.mquiescentb Assets.mlink Assets.mconn Downloads.dstep Downloads.dinit Downloads.phase_of Downloads.dquietb Downloads.flights Downloads.present Promotion.step Promotion.session Promotion.promoted Promotion.explore Promotion.explore_h Promotion.roles Promotion.stableb Promotion.events_of Promotion.handed_overb Observe.assets_list Observe.cache_list Observe.cache_lookup Observe.pending_list Types.T_SKIN
+  Observe.find_by_uuid Observe.count_by_uuid Entities.step Entities.init Entities.get_ents Entities.get_link Entities.set_link Entities.quiescentb Values.vstep Values.vinit Values.pcur Values.link Values.vquiescentb Values.ptoken Values.poutq Values.ds_from Values.jr_from Values.vconn ValuesPremise.causally_ordered Parents.writers_drain_separated Parents.pconn ParentsPremise.causally_ordered Parents.pstep Parents.pinit Parents.ppar Parents.plink Parents.pquiescentb Parents.ppexists Assets.astep Assets.ainit Assets.pstore Assets.pserved Assets.ppending Assets.link Assets.aquiescentb Assets.pexists Assets.mstep Assets.minit Assets.mpstore Assets.mquiescentb Assets.mlink Assets.mconn UniquePremise.frame_freshb UniquePremise.uuid_uniqueb Downloads.dstep Downloads.dinit Downloads.phase_of Downloads.dquietb Downloads.flights Downloads.present Promotion.step Promotion.session Promotion.promoted Promotion.explore Promotion.explore_h Promotion.roles Promotion.stableb Promotion.events_of Promotion.handed_overb Observe.assets_list Observe.cache_list Observe.cache_lookup Observe.pending_list Types.T_SKIN
   MeshCodec.mesh_to_bin_fast MeshCodec.bin_to_mesh_fast ImageCodec.image_to_bin_fast ImageCodec.bin_to_image_fast
   ProtoCodec.encode_fast ProtoCodec.decode_fast Schema.enc_reflect_fast Schema.dec_reflect_fast
   Schema.enc_fast Schema.dec_fast Lz4.compress Lz4.decompress.
